@@ -29,6 +29,7 @@ def plan(tier, seed):
     npl = 4 if tier == 'quick' else 10
     for i in range(npl):
         shards.append({'name': 'planted-%d' % i, 'fn': 'shard_planted', 'args': {'part': i, 'parts': npl}})
+    shards.append({'name': 'wide-codes', 'fn': 'shard_wide', 'args': {}})
     for i in range(2 if tier == 'quick' else 6):
         shards.append({'name': 'planted-pipeline-%d' % i, 'fn': 'shard_planted_pipeline', 'args': {'part': i}})
     return shards
@@ -111,6 +112,22 @@ def shard_random(sh, part, parts):
         Y, X = gen.random_pair(rng, nprng, cls, n)
         for name, (y, x) in order_variants(Y, X, rng).items():
             observe(sh, est, np.ascontiguousarray(y), np.ascontiguousarray(x), cls + '/' + name, sample=(t % 200 == 0 and name == 'sorted-by-X'))
+
+
+def shard_wide(sh):
+    """More than 2^16 distinct codes on the feature side / codes above 2^16 (narrow-integer regimes)."""
+    import numpy as np
+    est = _est()
+    nprng = sh.nprng('wide')
+    n = 70000
+    ident = nprng.permutation(n).astype(np.int32)
+    for k in (2, 3):
+        target = nprng.integers(0, k, n).astype(np.int32)
+        observe(sh, est, ident, target, 'identifier-with-more-than-2^16-values', sample=True)
+    two = np.where(nprng.random(n) < 0.5, 10, 65546).astype(np.int32)
+    target = np.where(nprng.random(n) < 0.2, 1 - (two == 10), (two == 10)).astype(np.int32)
+    observe(sh, est, two, target, 'codes-above-2^16', sample=True)
+    observe(sh, est, (two + 3 * 65536).astype(np.int32), target, 'codes-above-2^16')
 
 
 def shard_planted(sh, part, parts):
